@@ -1402,6 +1402,7 @@ def flux_surface(chk):
     ctx = Ctx(dist_dims=dist_dims(o, 2))
     an = run_method(chk, U.ADV, "FluxSurfaceAdvection", "gridStep", {"grid": grid_param(o, 2)}, ctx, dict(attrs), {"step": summ})
     index_agreement(chk, an, fn, U.ADV, "FluxSurfaceAdvection.gridStep")
+    index_provenance(chk, an, fn, U.ADV, "FluxSurfaceAdvection.gridStep")
     local_extent_dependence(chk, an, fn, U.ADV, "FluxSurfaceAdvection.gridStep")
     # the rows of the per-(r, v) tables are those of the slice's own radius also when the constructor keeps fewer rows than there are
     # local radii (decided by the element-wise model of the tables, shared with C10; nothing is recorded when no such cut exists)
@@ -1495,6 +1496,7 @@ def v_parallel(chk, pg_summ):
         vattrs = {k: v for k, v in vattrs.items() if I.is_arr(v) and v[2] is not None and v[2][0] == "coord"}
     except Exception:          # noqa: BLE001
         vattrs = {}
+    prov_tables = {}
     for m in ("gridStep", "gridStepKeepGradient"):
         fn = vpar_entry(chk, m)
         env = {"grid": grid_param(o_grid, 2), "phi": grid_param(o_phi, 1), "parGradVals": pgv,
@@ -1504,8 +1506,11 @@ def v_parallel(chk, pg_summ):
         chk.functions.add(f"{U.ADV}:VParallelAdvection.{m}")
         a.run()
         index_agreement(chk, a, fn, U.ADV, f"VParallelAdvection.{m}")
+        prov_tables[m] = index_provenance(chk, a, fn, U.ADV, f"VParallelAdvection.{m}")
         local_extent_dependence(chk, a, fn, U.ADV, f"VParallelAdvection.{m}")
         analyses[m] = a
+    sibling_provenance(chk, U.ADV, "VParallelAdvection.gridStep", "VParallelAdvection.gridStepKeepGradient", fn,
+                       prov_tables["gridStep"], prov_tables["gridStepKeepGradient"])
     radius_argument(chk, analyses)
     gradient_out_param(chk)
     out_array_axes(chk, analyses["gridStep"])
@@ -1994,6 +1999,270 @@ def index_agreement(chk, a, fn, rel, q):
                        f"`{src(glo[0][2])[:60]}`: whenever {dn} is distributed the entry of another process's block is used", file=rel, func=q)
 
 
+# ------------------------------------------------------------------ index provenance by receiver object
+_GRID_ACCESSORS = {"getCoords", "getGlobalIdxVals", "getCoordVals", "getEta", "getGlobalIndices"}
+_SLICERS = ("get1DSlice", "get2DSlice")
+
+
+def process_splits(chk):
+    """{ordering of a 3-D (potential) layout: [position in the distribution function's process grid that splits its k-th axis]} read from
+    the driver: `nprocs = <f>.getLayout(<f>.currentLayout).nprocs[:2]` (process counts of the 4-D layouts, by position in the ordering) and
+    `LayoutSwapper(comm, [dict, ...], [nprocs | nprocs[c], ...], ...)`.  Anything not of this form is left out (-> UNDECIDED)"""
+    cache = chk.__dict__.setdefault("_c05_process_splits", {})
+    if "v" in cache:
+        return cache["v"]
+    out = {}
+    try:
+        dfn = chk.func(U.DRIVER, "main")
+        one = {}
+        cnt = {}
+        for n in ast.walk(dfn):
+            if isinstance(n, ast.Name) and isinstance(n.ctx, ast.Store):
+                cnt[n.id] = cnt.get(n.id, 0) + 1
+            if isinstance(n, ast.Assign) and len(n.targets) == 1 and isinstance(n.targets[0], ast.Name):
+                one[n.targets[0].id] = n.value
+        one = {k: v for k, v in one.items() if cnt.get(k) == 1}
+        base = None
+        for k, v in one.items():
+            if isinstance(v, ast.Subscript) and isinstance(v.slice, ast.Slice) and v.slice.lower is None and v.slice.step is None \
+                    and isinstance(v.slice.upper, ast.Constant) and v.slice.upper.value == 2 and isinstance(v.value, ast.Attribute) \
+                    and v.value.attr == "nprocs" and isinstance(v.value.value, ast.Call) and isinstance(v.value.value.func, ast.Attribute) \
+                    and v.value.value.func.attr == "getLayout":
+                base = k
+        for c in ast.walk(dfn):
+            if base and isinstance(c, ast.Call) and isinstance(c.func, ast.Name) and c.func.id == "LayoutSwapper" and len(c.args) >= 3 \
+                    and isinstance(c.args[1], ast.List) and isinstance(c.args[2], ast.List) and len(c.args[1].elts) == len(c.args[2].elts):
+                for dct, npx in zip(c.args[1].elts, c.args[2].elts):
+                    dct = one.get(dct.id) if isinstance(dct, ast.Name) else dct
+                    if isinstance(npx, ast.Name) and npx.id == base:
+                        sym = [0, 1]
+                    elif isinstance(npx, ast.Subscript) and isinstance(npx.value, ast.Name) and npx.value.id == base \
+                            and isinstance(npx.slice, ast.Constant) and npx.slice.value in (0, 1):
+                        sym = [npx.slice.value]
+                    else:
+                        continue
+                    if not isinstance(dct, ast.Dict):
+                        continue
+                    for v in dct.values:
+                        try:
+                            order = tuple(ast.literal_eval(v))
+                        except Exception:      # noqa: BLE001
+                            continue
+                        key = (order, len(sym))          # a layout is identified by its ordering and its number of distributed axes
+                        if key in out and out[key] != sym:
+                            out[key] = None
+                        else:
+                            out[key] = sym
+    except Exception:          # noqa: BLE001
+        out = {}
+    cache["v"] = out
+    return out
+
+
+def index_provenance(chk, a, fn, rel, q):
+    """C-index-provenance: an index that selects a slice of Grid object R (selector of R.get1DSlice/get2DSlice), or that subscripts a
+    typed (Local/Global) axis of a table in the statement that advects a slice of R, and that derives (def-use: loop targets over
+    zip/enumerate of accessors, locals assigned from them) from a Grid accessor, must derive from an accessor of R itself, or of a Grid
+    whose layout (as typed by the caller's environment: ordering + number of distributed axes) distributes that dimension the same way.
+    Returns {(table name, axis position): {(receiver, accessor)}} for the sibling comparison."""
+    stores = {}
+    for n in ast.walk(fn):
+        if isinstance(n, ast.Name) and isinstance(n.ctx, ast.Store):
+            stores[n.id] = stores.get(n.id, 0) + 1
+    params = {x.arg for x in fn.args.args + fn.args.kwonlyargs}
+    alias = {}
+    for n in ast.walk(fn):
+        if isinstance(n, ast.Assign) and len(n.targets) == 1 and isinstance(n.targets[0], ast.Name) and isinstance(n.value, ast.Name) \
+                and stores.get(n.targets[0].id) == 1 and n.targets[0].id not in params:
+            alias[n.targets[0].id] = n.value.id
+
+    def recv_of(e):
+        """-> (identity of the receiver object or None, its grid tag or None)"""
+        t = a.node_tags.get(id(e))
+        t = t if isinstance(t, tuple) and t and t[0] == "grid" else None
+        if isinstance(e, ast.Name):
+            nm, seen = e.id, set()
+            while nm in alias and nm not in seen:
+                seen.add(nm)
+                nm = alias[nm]
+            if nm in params and stores.get(nm, 0) == 0:
+                return nm, t
+            return None, t
+        return None, t
+    tags = {}
+    prov = {}
+
+    def expr_prov(e):
+        out = set()
+        stack = [e]
+        while stack:
+            n = stack.pop()
+            if isinstance(n, ast.Call) and isinstance(n.func, ast.Attribute):
+                if n.func.attr in _SLICERS:
+                    continue                     # the DATA of a slice carries no index
+                if n.func.attr in _GRID_ACCESSORS:
+                    r, t = recv_of(n.func.value)
+                    if r is None and t is None and not isinstance(n.func.value, ast.Name):
+                        r = None
+                    if r is not None and t is not None:
+                        tags[r] = t
+                    out.add((r if (r is not None and t is not None) else "?", n.func.attr))
+                    continue
+            if isinstance(n, ast.Name) and isinstance(n.ctx, ast.Load) and n.id in prov:
+                out |= prov[n.id]
+            stack.extend(ast.iter_child_nodes(n))
+        return out
+
+    def bind(target, it):
+        if isinstance(it, ast.Call) and isinstance(it.func, ast.Name) and not it.keywords:
+            if it.func.id == "zip" and isinstance(target, (ast.Tuple, ast.List)) and len(target.elts) == len(it.args) \
+                    and not any(isinstance(x, ast.Starred) for x in list(target.elts) + list(it.args)):
+                for t_, x_ in zip(target.elts, it.args):
+                    bind(t_, x_)
+                return
+            if it.func.id == "enumerate" and len(it.args) == 1 and isinstance(target, (ast.Tuple, ast.List)) and len(target.elts) == 2:
+                bind(target.elts[0], it.args[0])
+                bind(target.elts[1], it.args[0])
+                return
+            if it.func.id in ("list", "tuple", "iter", "reversed", "sorted") and len(it.args) == 1:
+                bind(target, it.args[0])
+                return
+        p_ = expr_prov(it)
+        for n in ast.walk(target):
+            if isinstance(n, ast.Name):
+                prov[n.id] = prov.get(n.id, set()) | p_
+    for _ in range(3):
+        for n in ast.walk(fn):
+            if isinstance(n, (ast.For, ast.comprehension)):
+                bind(n.target, n.iter)
+            elif isinstance(n, ast.Assign):
+                for t_ in n.targets:
+                    if isinstance(t_, (ast.Name, ast.Tuple, ast.List)):
+                        p_ = expr_prov(n.value)
+                        for x in ast.walk(t_):
+                            if isinstance(x, ast.Name) and isinstance(x.ctx, ast.Store):
+                                prov[x.id] = prov.get(x.id, set()) | p_
+            elif isinstance(n, ast.NamedExpr) and isinstance(n.target, ast.Name):
+                prov[n.target.id] = prov.get(n.target.id, set()) | expr_prov(n.value)
+
+    def compat(h, r, d):
+        """does Grid h distribute dimension d like Grid r (so that its local / global indices along d are those of r's block)?"""
+        if h == r:
+            return True
+        th, tr = tags.get(h), tags.get(r)
+        if th is None or tr is None or th[1] is None or tr[1] is None or th[2] is None or tr[2] is None or d is None:
+            return None
+        oh, orr = list(th[1]), list(tr[1])
+        if d not in oh or d not in orr:
+            return None
+        dh, dr = oh.index(d) < th[2], orr.index(d) < tr[2]
+        if dh != dr:
+            return False
+        if not dh:
+            return True
+        # both distribute d: the blocks coincide when the same entry of the process grid splits d in both layouts (read from the driver)
+        def split(order, ndist, pos):
+            if len(order) == 4 and ndist == 2:
+                return pos
+            sym = process_splits(chk).get((tuple(order), ndist))
+            return sym[pos] if sym and pos < len(sym) == ndist else None
+        sh, sr = split(oh, th[2], oh.index(d)), split(orr, tr[2], orr.index(d))
+        return True if sh is not None and sh == sr else None
+    seen = set()
+    table_axes = {}
+
+    def judge(x, r, d, node, what):
+        ps = prov.get(x.id)
+        if not ps:
+            return
+        key = (x.id, r, d, what)
+        if key in seen:
+            return
+        seen.add(key)
+        dn = I.DIMNAMES.get(d, d)
+        own = sorted(f"{h}.{acc}" for h, acc in ps)
+        multi = stores.get(x.id, 0) > 1 and _binding_loop(node, x) is None
+        verdicts = {(h, acc): (None if h == "?" else compat(h, r, d)) for h, acc in ps}
+        bad = [k for k, v in verdicts.items() if v is False]
+        und = [k for k, v in verdicts.items() if v is None]
+        # VIOLATED-soundness: (1) `x` is bound once (one loop target / one store), so the accessor found IS the source of the value used;
+        # (2) every source is an accessor of a Grid PARAMETER that is never re-bound, distinct from r, and both objects carry the layout the
+        # caller's environment states (ordering + number of distributed axes): along dimension d exactly one of them is distributed, so
+        # the index range of one object's block is not that of the other's; (3) a mixture of own and foreign sources, an unresolved
+        # receiver, or an unknown layout is UNDECIDED
+        if bad and not und and not multi and len(ps) == len(bad):
+            h, acc = bad[0]
+            th, tr = tags[h], tags[r]
+            ok, why = False, (f"`{x.id}` {what} of `{r}`'s slice but derives from `{h}.{acc}(...)`: `{h}` (ordering {tuple(th[1])}, {th[2]} distributed "
+                              f"axes) and `{r}` (ordering {tuple(tr[1])}, {tr[2]} distributed axes) do not distribute {dn} alike, so the index is that of "
+                              f"`{h}`'s block (it starts at 0 where {dn} is not distributed), not the global/local position of the slice of `{r}` that is "
+                              f"advected: with {dn} split over several processes the slice gets the parameters of another {dn} plane")
+        elif bad or und:
+            ok, why = None, (f"`{x.id}` {what} of `{r}`'s slice; it derives from {', '.join(own)}: that these index `{r}`'s own block along {dn} is "
+                             "not established (receiver or layout unresolved, or several sources)")
+        else:
+            ok, why = True, f"`{x.id}` {what} of `{r}`'s slice and derives from {', '.join(own)} (same object, or same distribution of {dn})"
+        chk.ob("C-index-provenance", node, f"{x.id} <- {', '.join(own)} @ {src(node)[:50]}", ok, why, file=rel, func=q)
+    simple = (ast.Expr, ast.Assign, ast.AugAssign, ast.AnnAssign, ast.Return)
+    for st in ast.walk(fn):
+        if not isinstance(st, simple):
+            continue
+        slicers = []
+        for n in ast.walk(st):
+            if isinstance(n, ast.Call) and isinstance(n.func, ast.Attribute) and n.func.attr in _SLICERS:
+                r, t = recv_of(n.func.value)
+                slicers.append((n, r, t))
+        if not slicers:
+            continue
+        for n, r, t in slicers:
+            if t is None or t[1] is None:
+                continue
+            if r is None:
+                for k, x in enumerate(n.args):
+                    if isinstance(x, ast.Name) and prov.get(x.id):
+                        chk.ob("C-index-provenance", n, f"{x.id} @ {src(n)[:50]}", None,
+                               f"receiver `{src(n.func.value)[:40]}` of the slice is not a Grid parameter of the step: whose block `{x.id}` indexes is not resolved",
+                               file=rel, func=q)
+                continue
+            tags[r] = t
+            for k, x in enumerate(n.args):
+                if isinstance(x, ast.Name) and k < len(t[1]):
+                    judge(x, r, t[1][k], n, f"selects the local {I.DIMNAMES.get(t[1][k], t[1][k])} position")
+        owners = {r for _, r, t in slicers if r is not None and t is not None}
+        for n in ast.walk(st):
+            if not isinstance(n, ast.Subscript):
+                continue
+            tb = a.node_tags.get(id(n.value))
+            if not I.is_arr(tb):
+                continue
+            items = n.slice.elts if isinstance(n.slice, ast.Tuple) else [n.slice]
+            k = 0
+            for it in items:
+                if isinstance(it, ast.Constant) and it.value is None:
+                    continue
+                if k >= len(tb[1]):
+                    break
+                w = tb[1][k]
+                if isinstance(it, ast.Name) and w is not None and w[0] in ("G", "L") and isinstance(w[1], int) and prov.get(it.id):
+                    table_axes.setdefault((src(n.value), k), set()).update(prov[it.id])
+                    if len(owners) == 1:
+                        judge(it, next(iter(owners)), w[1], n,
+                              f"subscripts the {'Global' if w[0] == 'G' else 'Local'}({I.DIMNAMES.get(w[1], w[1])}) axis of `{src(n.value)[:30]}` for the parameters")
+                k += 1
+    return table_axes
+
+
+def sibling_provenance(chk, rel, qa, qb, node, ta, tb):
+    """the two entry points that read the same table must take the index of each of its axes from the same (receiver, accessor)"""
+    for key in sorted(set(ta) & set(tb)):
+        same = ta[key] == tb[key]
+        # never VIOLATED by itself: which sibling is wrong is decided by C-index-provenance
+        chk.ob("C-index-provenance", node, f"{key[0]} axis {key[1]}: {qa} / {qb}", True if same else None,
+               f"axis {key[1]} of `{key[0]}` is indexed from {sorted('.'.join(p) for p in ta[key])} in both" if same else
+               f"axis {key[1]} of `{key[0]}` is indexed from {sorted('.'.join(p) for p in ta[key])} in {qa} but from "
+               f"{sorted('.'.join(p) for p in tb[key])} in {qb}: the siblings do not read the same entries of the table", file=rel, func=qb)
+
+
 # ------------------------------------------------------------------ decisions taken from the local block only
 _REDUCERS = {"max", "min", "sum", "mean", "any", "all", "prod", "amax", "amin", "argmax", "argmin", "std", "var", "norm", "ptp",
              "count_nonzero", "median", "average", "nanmax", "nanmin", "nansum", "nanmean", "vdot", "trace"}
@@ -2445,6 +2714,7 @@ def poloidal(chk):
         an = run_method(chk, U.ADV, "PoloidalAdvection", m, env2, ctx, dict(attrs),
                           {"step": {"params": ["f", "dt", "phi", "v"], "req": {}}})
         index_agreement(chk, an, fn, U.ADV, f"PoloidalAdvection.{m}")
+        index_provenance(chk, an, fn, U.ADV, f"PoloidalAdvection.{m}")
         local_extent_dependence(chk, an, fn, U.ADV, f"PoloidalAdvection.{m}")
         for n_ in ast.walk(fn):
             if isinstance(n_, ast.Subscript) and src(n_.value) == "self._phiSplines":
